@@ -316,7 +316,8 @@ pub fn gen_absdb(rng: &mut Rng, case: u64, cfg: &AbsCfg, force: Option<&'static 
     if cp_variant < 2 {
         tags.push("summary-codepage-0-or-absent");
     }
-    let st = |rng: &mut Rng, t: &str| PVal::LpStr(cpora::encode(spage, &text(rng, spage, t, 0)));
+    // one string property in twelve is the empty string
+    let st = |rng: &mut Rng, t: &str| if rng.chance(1, 12) { PVal::LpStr(Vec::new()) } else { PVal::LpStr(cpora::encode(spage, &text(rng, spage, t, 0))) };
     if rng.chance(3, 4) {
         props.push((2, st(rng, "Title")));
     }
@@ -362,6 +363,10 @@ pub fn gen_absdb(rng: &mut Rng, case: u64, cfg: &AbsCfg, force: Option<&'static 
         version = 1;
     }
     let mut ps = PsEncOptions { version, ..Default::default() };
+    if props.iter().any(|p| matches!(&p.1, PVal::LpStr(b) if b.is_empty())) && rng.chance(1, 2) {
+        ps.empty_strings_size0 = true;
+        tags.push("summary-empty-string-size-0");
+    }
     if opt(rng, "propset-shuffled", 1, 2) {
         let mut lo: Vec<usize> = (0..props.len()).collect();
         rng.shuffle(&mut lo);
